@@ -1,5 +1,6 @@
 import GeosModel.Proofs.Index.STRBuild
 import GeosModel.Proofs.EnvLemmas
+import GeosModel.Model.Index.Rep
 /-!
 # C15 — spatial index queries return exactly the matching items after any history
 
@@ -391,7 +392,63 @@ theorem unfixed_query_visits_removed :
   refine ⟨.leaf ⟨some ⟨0, 1, 0, 1⟩, 7, true⟩, some ⟨0, 1, 0, 1⟩, trivial, ?_⟩
   decide
 
+/-! ### the C++ representations used by the translator tie (Model/Index/Rep.lean) lose nothing
+
+`Props/C15Gen.lean` proves the functions regenerated from `Envelope.h` / `TemplateSTRNode.h` equal to the model *through*
+`Rep.rep` (envelope = four doubles, null = all NaN) and `Rep.childrenOf` (node kind = `children` pointer: `nullptr` live
+leaf, `this` deleted leaf, else composite).  These theorems say the representations are faithful, so that equality
+through them is equality of behaviour. -/
+
+/-- distinct envelopes of the model are distinct C++ objects; only the null envelope has a NaN `maxx` -/
+theorem rep_faithful (a b : Env) :
+    (Rep.rep a = Rep.rep b → a = b) ∧ (Rep.isnan (Rep.rep a).maxx = true ↔ a = none) := by
+  constructor
+  · intro h
+    have h1 := congrArg Rep.CEnv.minx h
+    have h2 := congrArg Rep.CEnv.maxx h
+    have h3 := congrArg Rep.CEnv.miny h
+    have h4 := congrArg Rep.CEnv.maxy h
+    cases a with
+    | none => cases b with
+      | none => rfl
+      | some y => exact absurd h1 (by intro h'; cases h')
+    | some x => cases b with
+      | none => exact absurd h1 (by intro h'; cases h')
+      | some y =>
+        obtain ⟨x1, x2, x3, x4⟩ := x
+        obtain ⟨y1, y2, y3, y4⟩ := y
+        simp only [Rep.rep, Rep.NK.ofKey] at h1 h2 h3 h4
+        cases h1; cases h2; cases h3; cases h4
+        rfl
+  · cases a <;> simp [Rep.rep]
+
+omit [BEq ι] in
+/-- the three values of `children` (`nullptr`, `this`, other) tell live leaf, deleted leaf and composite node apart -/
+theorem children_encoding_faithful (self first : Nat) (h : first ≠ self) (n : Node β ι) :
+    (Rep.childrenOf self first n = none ↔ (n.isLeaf = true ∧ Rep.isDeletedLeaf n = false)) ∧
+    (Rep.childrenOf self first n = some self ↔ (n.isLeaf = true ∧ Rep.isDeletedLeaf n = true)) ∧
+    (Rep.childrenOf self first n = some first ∧ first ≠ self ↔ n.isLeaf = false) := by
+  cases n with
+  | leaf e =>
+    cases hd : e.deleted <;> simp [Rep.childrenOf, Rep.isDeletedLeaf, Node.isLeaf, hd]
+    intro h2; exact h2.symm
+  | branch b ks => simp [Rep.childrenOf, Rep.isDeletedLeaf, Node.isLeaf, h]
+
+/-- what `remove` does to the leaf it finds is exactly `Rep.markDeleted` (the model of `removeItem()`), which keeps the
+node a leaf with the same bounds and takes its item out of the live entries -/
+theorem removeNode_leaf_marks (ops : Ops β) (q : β) (i : ι) (e : Entry β ι) :
+    removeNode ops q i (.leaf e) =
+      (if (ops.inter e.b q && !e.deleted && e.item == i) = true then some (Rep.markDeleted (.leaf e)) else none) ∧
+    (Rep.markDeleted (Node.leaf e)).isLeaf = true ∧ (Rep.markDeleted (Node.leaf e)).bounds = e.b ∧
+    (Rep.markDeleted (Node.leaf e)).leaves.filter (fun x => !x.deleted) = [] := by
+  simp [removeNode, Rep.markDeleted, Node.isLeaf, Node.bounds, Node.leaves]
+
 /-! ### non-vacuity: a concrete configuration satisfies every hypothesis, and a concrete history runs -/
+
+example : Rep.childrenOf 5 2 (Node.leaf (⟨(), 7, false⟩ : Entry Unit Nat)) = none ∧
+    Rep.childrenOf 5 2 (Node.leaf (⟨(), 7, true⟩ : Entry Unit Nat)) = some 5 ∧
+    Rep.childrenOf 5 2 (Node.branch () ([] : List (Node Unit Nat))) = some 2 := by decide
+
 
 def demoCfg : Cfg Env Nat :=
   { ops := envOps, isNull := Env.isNull, sortX := id, sortY := id }
